@@ -103,6 +103,27 @@ def run(ck, prog, ctx):
         need = {(x, p) for x in ("name", "parents", "obsolete", "replacement") for p in (1, 2)}
         miss = sorted(need - pairs)
         ck.ob("COVER", "HpoTermDelta/decision", not miss, "the changed-decision of HpoTermDelta::new depends on %d/8 (attribute, side) pairs%s" % (len(need & pairs), "" if not miss else "; missing: %s" % [(a, "lhs" if p == 1 else "rhs") for a, p in miss]), where=hd.where())
+        # each scalar attribute is compared for (in)equality between the two sides: old value vs new value
+        cmps = []
+        pv_c = Prov(prog, inline=False)
+        for bi, t in hd.calls():
+            if t.callee.trait in ("std::cmp::PartialEq", "std::cmp::Ord", "std::cmp::PartialOrd") and t.callee.method in ("eq", "ne", "cmp", "partial_cmp") and len(t.args) == 2:
+                cmps.append((t.line, t.args[0], t.args[1]))
+        for pos, st in hd.stmts():
+            if st.k == "assign" and st.rv["k"] == "bin" and st.rv["op"] in ("Eq", "Ne"):
+                cmps.append((st.line, st.rv["l"], st.rv["r"]))
+        seen_attr = {}
+        for line, lo, ro in cmps:
+            la, ra = pv_c.of_operand(hd, lo), pv_c.of_operand(hd, ro)
+
+            def attrs(at):
+                return {ACC[a[1].rsplit("::", 1)[-1]] for a in at if a[0] == "call" and a[1].startswith("term::hpoterm::HpoTerm::") and a[1].rsplit("::", 1)[-1] in ACC}
+            lp, rp = params_of(la, hd.id), params_of(ra, hd.id)
+            for x in attrs(la) & attrs(ra):
+                if {frozenset(lp), frozenset(rp)} == {frozenset({1}), frozenset({2})}:
+                    seen_attr[x] = line
+        for x in ("name", "obsolete", "replacement"):
+            ck.ob("COVER", "HpoTermDelta/compares/" + x, x in seen_attr, "HpoTermDelta::new %s" % (("compares the old and the new %s for equality" % x) if x in seen_attr else ("never compares the old %s with the new %s for equality: a term whose %s changed from one value to another is not reported" % (x, x, x))), where=hd.where(seen_attr.get(x)))
         agg = [s for _, s in hd.stmts() if s.k == "assign" and s.rv["k"] == "agg" and s.rv.get("adt", "").endswith("HpoTermDelta")]
         DIRECT = {"parents", "parent_ids"}
 
